@@ -102,8 +102,8 @@ UEs == <<0, -10, -14, 10>>
 OffF32 == <<0, 2000, 2048, 8192, 65536, 2000>>
 OffF64 == <<0, 100000, 10000000, 1073741824, 10000000, 100000>>
 OffOf(f32, q) == IF f32 THEN OffF32[(q % 6) + 1] ELSE OffF64[(q % 6) + 1]
-\* nearly collinear second column for OLS: 30 * first column + second column (a column operation: rank unchanged)
-NearCol(xx) == [i \in 1..Len(xx) |-> <<xx[i][1], 30 * xx[i][1] + xx[i][2]>>]
+\* nearly collinear second column for OLS: 20 * first column + second column (a column operation: rank unchanged)
+NearCol(xx) == [i \in 1..Len(xx) |-> <<xx[i][1], 20 * xx[i][1] + xx[i][2]>>]
 
 \* selector decorrelated from the thinning moduli (h is a multiple of them)
 Sel(h, salt, m) == ((((h \div 3) % 100000) * 7919 + salt * 104729) % 1009) % m
